@@ -62,6 +62,7 @@ def entry_for(item, sampler, out):
 def work(w):
     item, prefix, seed = w
     eng = ENG; reset_stats(eng); eng.solver = z3.Solver()
+    eng.prefer = PREFER
     samples = []; sampler = Sampler(seed, first=1, every=60)
     try:
         viol = eng.run_all(entry_for(item, sampler, samples), prefix=prefix)
@@ -73,16 +74,28 @@ def work(w):
         if info is not None:
             # distinct concrete values make the native check decisive: k_n := 1000 + n
             f = info['fam']
-            st = subst_tags(info['stmt'], f); tags = sorted(f.tags); chosen = f.chosen
-        vs.append({'kind': k, 'msg': msg, 'item': [item[0], item[1]], 'stmt': st, 'tags': tags, 'chosen': chosen, 'pos': info and [[k2, n2] for k2, n2 in info['fam'].pos],
+            st = subst_tags(info['stmt'], f, m); tags = sorted(f.tags); chosen = f.chosen; tagvals = tag_values(f, m)
+        vs.append({'kind': k, 'msg': msg, 'item': [item[0], item[1]], 'stmt': st, 'tags': tags, 'tagvals': info and [[n, tagvals[n]] for n in tags], 'chosen': chosen, 'pos': info and [[k2, n2] for k2, n2 in info['fam'].pos],
                    'dup_ok': info and sorted(info['fam'].dup_ok)})
     return {'stats': eng.stats, 'executed': eng.executed, 'models_used': eng.models_used, 'violations': vs, 'samples': samples, 'item': repr(item)}
 
-def subst_tags(t, f):
-    """script with every symbolic value k_n replaced by the concrete marker 1000 + n"""
+# steer counterexample models to the distinct markers k_n = 1000 + n wherever the path condition allows it (a value-dependent defect keeps the value it needs)
+PREFER = [z3.BitVec('k%d' % n, w) == 1000 + n for n in range(1, 41) for w in (32, 64)]
+
+def tag_values(f, m=None):
+    from framework import model_int
+    out = {}
+    for n, term in f.tags.items():
+        v = model_int(m, term) if m is not None else None
+        out[n] = v if isinstance(v, int) else 1000 + n
+    return out
+
+def subst_tags(t, f, m=None):
+    """script with every symbolic value k_n replaced by a concrete value: the one of the model m, else the marker 1000 + n"""
     inv = {id(term): n for n, term in f.tags.items()}
+    vals = tag_values(f, m)
     def go(x):
-        if is_sym(x): return 1000 + inv[id(x)]
+        if is_sym(x): return vals[inv[id(x)]]
         if isinstance(x, list): return [go(y) for y in x]
         if isinstance(x, dict): return {k: go(v) for k, v in x.items()}
         return x
@@ -93,7 +106,10 @@ class ConcE:
         if not cond: raise AssertionError(msg)
 
 class ConcFam:
-    def __init__(self, tags, pos, dup_ok=()): self.tags = {n: 1000 + n for n in tags}; self.pos = [(k, n) for k, n in pos]; self.dup_ok = set(dup_ok)
+    def __init__(self, tags, pos, dup_ok=(), tagvals=None):
+        self.tags = {n: 1000 + n for n in tags}
+        if tagvals: self.tags.update({n: v for n, v in tagvals})
+        self.pos = [(k, n) for k, n in pos]; self.dup_ok = set(dup_ok)
 
 def native_verdict(nat, v):
     req = {'op': 'render', 'backend': v['item'][1], 'entry': 'build', 'stmt': v['stmt']}
@@ -102,7 +118,7 @@ def native_verdict(nat, v):
     class Val:      # mimic the engine's Value Adt shape for check_binding
         def __init__(self, j):
             self.fields = [Cell(Adt('Option', 'None' if j['v'] is None else 'Some', [] if j['v'] is None else [Cell(j['v'])]))]
-    f = ConcFam(v['tags'], v['pos'], v.get('dup_ok') or ())
+    f = ConcFam(v['tags'], v['pos'], v.get('dup_ok') or (), v.get('tagvals'))
     try:
         check_binding_conc(f, v['item'][1], r['sql'], r['values'])
     except AssertionError as ex:
@@ -125,7 +141,7 @@ def check_binding_conc(f, backend, sql, values):
             if not lists[mk[0]]: raise AssertionError('unexpected %s placeholder [%s]' % (mk[0], s))
             tag = lists[mk[0]].pop(0)
         seen.append(tag)
-        if values[i]['v'] != 1000 + tag: raise AssertionError('placeholder %d (k_%s) is bound to %r [%s]' % (i + 1, tag, values[i]['v'], s))
+        if values[i]['v'] != f.tags[tag]: raise AssertionError('placeholder %d (k_%s) is bound to %r [%s]' % (i + 1, tag, values[i]['v'], s))
     dedup = sorted(set(seen)) if all(seen.count(t) == 1 or t in f.dup_ok for t in seen) else sorted(seen)
     if dedup != sorted(f.tags): raise AssertionError('values lost or duplicated: bound %r supplied %r [%s]' % (sorted(seen), sorted(f.tags), s))
 
@@ -175,7 +191,7 @@ def run(ctx, entry_factory=None, checker=None):
             why, req = native_verdict(nat, v)
             if why:
                 ctx.violations.append({'key': '%s:%s:%s' % (v['item'][0], v['item'][1], '+'.join(v['chosen'] or [])), 'msg': v['msg'] + ' / native: ' + why, 'stmt': v['stmt'],
-                                       'tags': v['tags'], 'pos': v['pos'], 'dup_ok': v.get('dup_ok'), 'item': v['item'], 'replay': req})
+                                       'tags': v['tags'], 'tagvals': v.get('tagvals'), 'pos': v['pos'], 'dup_ok': v.get('dup_ok'), 'item': v['item'], 'replay': req})
             else:
                 ctx.inconclusive.append('counterexample does not reproduce natively: %r' % (v,))
 
